@@ -2,6 +2,8 @@
 From Coq Require Import List ZArith Bool.
 Import ListNotations.
 Require Import Verif.Total.Pipeline Verif.Total.FieldPanics Verif.Total.RunC01 Verif.Total.PipelineProps Verif.Total.Current Verif.Gen.Guards.
+Require Verif.Total.NamePos Verif.Total.NamePosProps Verif.Total.Wrap Verif.Total.WrapProps.
+Require Verif.Total.ImportRec Verif.Total.ImportRecProps Verif.Total.ImportRecTypes Verif.Total.ImportRecCurrent Verif.Gen.ImporterRec.
 Local Open Scope Z_scope.
 
 (* For every import closure, every behaviour of the stages that run under a recover (generated parser,
@@ -204,3 +206,108 @@ Theorem C01_flatten_terminates : forall g root maxd sched,
   exists l, Verif.Imports.FlattenProps.final g root maxd sched = Some l.
 Proof. exact Verif.Imports.FlattenProps.flatten_total. Qed.
 Print Assumptions C01_flatten_terminates.
+
+(* ---- foreign files of the closure: the Swagger importer's recursion over a CYCLIC schema graph (Total/ImportRec.v) ----
+   `import api.yaml as Ns :: App ~swagger` runs pkg/importer/openapi3_legacy.go inside a goroutine of parseSpecs, where a
+   stack overflow would end the process past every recover. *)
+
+(* every Swagger 2 document - any number of definitions, $ref circles through allOf / items / properties / oneOf, self
+   reference, mutual recursion - is converted or refused: loadTypeSchema <-> buildField <-> typeNameFromSchemaRef never
+   nest deeper than (number of $ref names + 1) * (number of schemas + 3). The only hypothesis is the shape of a
+   document: an inline schema lies inside the schema that contains it (pre-order numbering). *)
+Theorem C01_swagger_import_terminates : forall d,
+  Verif.Total.ImportRec.inline_increasing d = true ->
+  Verif.Total.ImportRec.import_swagger d <> Verif.Total.ImportRec.LFuel.
+Proof. exact Verif.Total.ImportRecProps.import_swagger_terminates. Qed.
+Print Assumptions C01_swagger_import_terminates.
+
+(* the same for one loadTypeSchema call from any state of the in-progress map, with the fuel it needs *)
+Theorem C01_swagger_load_terminates : forall d, Verif.Total.ImportRec.inline_increasing d = true ->
+  forall fuel n rm, Verif.Total.ImportRecProps.req d fuel rm n ->
+  fst (Verif.Total.ImportRec.load fuel d n rm) <> Verif.Total.ImportRec.LFuel.
+Proof. exact Verif.Total.ImportRecProps.load_terminates. Qed.
+Print Assumptions C01_swagger_load_terminates.
+
+(* loadTypeSchema leaves the in-progress marks exactly as it found them (every `refMap[ref] = false` is undone by its
+   deferred setDefined, no call clears a mark of a caller): what makes the order of properties / definitions irrelevant
+   for "circular reference detected" *)
+Theorem C01_swagger_marks_restored : forall d fuel n rm k,
+  Verif.Total.ImportRec.inprog (snd (Verif.Total.ImportRec.load fuel d n rm)) k = Verif.Total.ImportRec.inprog rm k.
+Proof. exact (fun d fuel n rm => Verif.Total.ImportRecProps.load_frame d fuel n rm). Qed.
+Print Assumptions C01_swagger_marks_restored.
+
+(* the seeded regression's document (A allOf [B]; B {inner: object allOf [A]}) is within the theorem and is refused *)
+Example C01_swagger_example :
+  Verif.Total.ImportRec.inline_increasing Verif.Total.ImportRecProps.doc_through_inline = true /\
+  Verif.Total.ImportRec.import_swagger Verif.Total.ImportRecProps.doc_through_inline = Verif.Total.ImportRec.LCirc.
+Proof. exact Verif.Total.ImportRecProps.ex_through_inline. Qed.
+
+(* necessity: if the in-progress map is dropped where buildField descends into an inline property (what the seeded
+   regression did), the import of that document exhausts EVERY fuel: the real code overflows the stack *)
+Theorem C01_swagger_reset_never_ends : forall fuel rm,
+  Verif.Total.ImportRec.inprog rm 3%positive = false ->
+  fst (Verif.Total.ImportRecProps.load_r fuel Verif.Total.ImportRecProps.doc_through_inline 1 rm) = Verif.Total.ImportRec.LFuel.
+Proof. exact Verif.Total.ImportRecProps.reset_in_mid_recursion_never_ends. Qed.
+Print Assumptions C01_swagger_reset_never_ends.
+
+(* obligations against the current source: the recursion skeleton and the marker operations the model was written
+   against, the marker discipline as decidable facts, and which formats / guards importForeign has *)
+Theorem C01_importer_skeleton_current :
+  Verif.Gen.ImporterRec.rec_skeleton = Verif.Total.ImportRecCurrent.rec_skeleton_reviewed /\
+  Verif.Gen.ImporterRec.refmap_ops = Verif.Total.ImportRecCurrent.refmap_ops_reviewed.
+Proof. exact (conj Verif.Total.ImportRecCurrent.rec_skeleton_current Verif.Total.ImportRecCurrent.refmap_ops_current). Qed.
+Print Assumptions C01_importer_skeleton_current.
+
+Theorem C01_refmap_discipline_current :
+  Verif.Total.ImportRecTypes.made_only_when_nil Verif.Gen.ImporterRec.refmap_ops = true /\
+  Verif.Total.ImportRecTypes.marks_have_done Verif.Gen.ImporterRec.refmap_ops = true /\
+  Verif.Total.ImportRecTypes.done_only_deferred Verif.Gen.ImporterRec.refmap_ops = true.
+Proof. exact Verif.Total.ImportRecCurrent.refmap_discipline_current. Qed.
+Print Assumptions C01_refmap_discipline_current.
+
+Theorem C01_foreign_path_current :
+  Verif.Gen.ImporterRec.foreign_formats = ["OpenAPI3"; "OpenAPI2"; "SYSL"; "Protobuf"]%string /\
+  Verif.Gen.ImporterRec.foreign_cases = [("SYSL", false); ("SyslPB", false); ("OpenAPI3,OpenAPI2,Protobuf", true); ("default", false)]%string /\
+  Verif.Gen.ImporterRec.foreign_recover = true /\ Verif.Gen.ImporterRec.foreign_in_goroutine = true.
+Proof. exact Verif.Total.ImportRecCurrent.foreign_path_current. Qed.
+Print Assumptions C01_foreign_path_current.
+
+(* the importers' loops / recursions with what bounds each (status per function) *)
+Theorem C01_importer_loops_current :
+  filter Verif.Total.LoopCurrent.in_importer Verif.Gen.LoopSites.loop_sites =
+    map (fun r => (fst (fst (fst r)), snd (fst (fst r)), snd (fst r))) Verif.Total.LoopCurrent.importer_loop_status.
+Proof. exact Verif.Total.LoopCurrent.loop_sites_importer_current. Qed.
+Print Assumptions C01_importer_loops_current.
+
+(* ---- MustUnescape in the name positions that take free text: application name, call target, mixin (Total/NamePos.v) ---- *)
+
+(* the listener panics there exactly for a text of two or more words (a TEXT_LINE token) with a '%' that is not followed
+   by two hex digits; every text *)
+Theorem C01_name_position_predictor : forall text,
+  Verif.Total.NamePos.name_outcome text = Verif.Total.NamePos.NPanic <->
+  (2 <= Verif.Total.NamePos.nwords text false)%nat /\
+  Verif.Total.Unescape.bad_escape (Verif.Total.Unescape.trim Verif.Total.Unescape.is_blank32 text) = true.
+Proof. exact Verif.Total.NamePosProps.name_outcome_panics_iff. Qed.
+Print Assumptions C01_name_position_predictor.
+
+(* a name of one word is a Name token or a syntax error, never a panic *)
+Theorem C01_one_word_name_never_panics : forall text,
+  Verif.Total.NamePos.nwords text false = 1%nat -> Verif.Total.NamePos.name_outcome text <> Verif.Total.NamePos.NPanic.
+Proof. exact Verif.Total.NamePosProps.one_word_name_never_panics. Qed.
+Print Assumptions C01_one_word_name_never_panics.
+
+Theorem C01_name_position_syntax_iff : forall text,
+  Verif.Total.NamePos.name_outcome text = Verif.Total.NamePos.NSyntax <->
+  Verif.Total.NamePos.nwords text false = 0%nat \/
+  (Verif.Total.NamePos.nwords text false = 1%nat /\
+   Verif.Total.NamePos.name_tokb (Verif.Total.Unescape.trim Verif.Total.Unescape.is_blank32 text) = false).
+Proof. exact Verif.Total.NamePosProps.name_outcome_syntax_iff. Qed.
+Print Assumptions C01_name_position_syntax_iff.
+
+(* ---- the second `!wrap` (EnterModel_name, "not implemented yet?"), Total/Wrap.v ---- *)
+(* the walk of a closure panics there exactly when some application has two or more `!wrap` members in the whole
+   closure: in one block, in two blocks of a file, or in two files; every sequence of application blocks *)
+Theorem C01_second_wrap_predictor : forall bs,
+  Verif.Total.Wrap.wrap_walk bs [] = Panic <-> exists a, (2 <= Verif.Total.Wrap.facades a bs)%nat.
+Proof. exact Verif.Total.WrapProps.wrap_panics_iff. Qed.
+Print Assumptions C01_second_wrap_predictor.
